@@ -1229,7 +1229,11 @@ def oracle_refine(line, out):
         a, qlen, c, d = kv["QRY"].split(":")
         Q = [int(t) for t in d.split(",")]
         sp = min([R[i + 1] - R[i] for i in range(len(R) - 1)] + [10 ** 9])
-        if sp >= 2000 and len(Q) >= 15 and abs(truth - peak) <= 2000 and truth >= R[0]:
+        # C06's domain: an INTERIOR window, at least 4 labels from either reference end (a molecule whose unlabelled tail
+        # hangs over the last reference label has its true lag outside the 'valid' correlation range)
+        i0 = R.index(truth) if truth in R else -1
+        interior = i0 >= 4 and i0 + len(Q) - 1 <= len(R) - 5
+        if sp >= 2000 and len(Q) >= 15 and abs(truth - peak) <= 2000 and interior:
             if not any(abs(p - truth) <= 200 for p, h in got):
                 return f"no seed within 200 bp of the true diagonal {truth}: seeds {[p for p, h in got]}"
     return None
